@@ -14,6 +14,7 @@ use crate::common::Ctx;
 use crate::fam::{Fam, KeyF, ValF};
 use micromap::{Map, Set};
 use support::fault::{self, Caught};
+use support::elems::{z_live, z_set_eq, Z};
 use support::glob::Global;
 use support::ledger;
 use support::rng::{Fp, Rng};
@@ -307,6 +308,55 @@ impl<'a> Bulk<'a> {
         check_pulls("Set::extend(&T)", &descr, items.len(), overflow);
         if ledger::viol_total() > 0 {
             self.cx.rep.absorb_violations("C16", &|| vec![descr.clone()]);
+        }
+    }
+
+    /// zero-sized elements through the bulk entry points
+    pub fn zst<const N: usize>(&mut self) {
+        ledger::set_ctx(self.case_no, 0, "bulk(zero-sized)");
+        let live0 = z_live();
+        for all_equal in [true, false] {
+            z_set_eq(all_equal);
+            for k in 0..=(N + 2) {
+                self.cx.rep.evaluations += 1;
+                let want = if all_equal { k.min(1) } else { k };
+                let must_panic = want > N;
+                let items: Vec<Z> = (0..k).map(|_| Z::new()).collect();
+                let pairs: Vec<(Z, ())> = (0..k).map(|_| (Z::new(), ())).collect();
+                let rs = fault::catch(|| rec(items).collect::<Set<Z, N>>().len());
+                let pulled_s = PULLS.with(|p| p.len());
+                let rm = fault::catch(|| pairs.into_iter().collect::<Map<Z, (), N>>().len());
+                let mut ext: Set<Z, N> = Set::new();
+                let more: Vec<Z> = (0..k).map(|_| Z::new()).collect();
+                let re = fault::catch(|| ext.extend(more));
+                for (name, r) in [("Set::from_iter", rs), ("Map::from_iter", rm), ("Set::extend", match re { Caught::Ok(()) => Caught::Ok(ext.len()), Caught::Panic(m) => Caught::Panic(m), Caught::Injected(a, b) => Caught::Injected(a, b) })] {
+                    match r {
+                        Caught::Ok(len) => {
+                            if must_panic || len != want {
+                                v("zero-sized", format!("{} of {} zero-sized items (all equal = {}) into capacity {} gave {} entries; inserting one by one gives {}{}", name, k, all_equal, N, len, want.min(N), if must_panic { " and then panics" } else { "" }));
+                            }
+                        }
+                        Caught::Panic(msg) => {
+                            if !must_panic {
+                                v("zero-sized", format!("{} of {} zero-sized items (all equal = {}) into capacity {} panicked: {}", name, k, all_equal, N, msg));
+                            }
+                        }
+                        Caught::Injected(..) => {}
+                    }
+                }
+                if !must_panic && pulled_s != k + 1 {
+                    v("source-consumption", format!("Set::from_iter of {} zero-sized items pulled its source {} times", k, pulled_s));
+                }
+                drop(ext);
+                self.cx.rep.hit("zst");
+            }
+        }
+        z_set_eq(true);
+        if z_live() != live0 {
+            v("leak", format!("zero-sized bulk construction, N={}: {} keys alive after everything was dropped", N, z_live() - live0));
+        }
+        if ledger::viol_total() > 0 {
+            self.cx.rep.absorb_violations("C16", &|| vec![format!("zero-sized bulk construction N={}", N)]);
         }
     }
 
